@@ -137,6 +137,34 @@ func (sqlTx *SQLTx) getWithPrefix(ctx context.Context, prefix, neq []byte) (key 
 	return sqlTx.tx.GetWithPrefix(ctx, prefix, neq)
 }
 
+// existsWithPrefix tells whether a live (neither deleted nor expired) entry
+// with the given prefix exists. Unlike getWithPrefix, which only looks at the
+// first entry of the prefix, tombstones of previously deleted entries are
+// skipped. Every entry read is tracked in the MVCC read-set.
+func (sqlTx *SQLTx) existsWithPrefix(ctx context.Context, prefix []byte) (bool, error) {
+	r, err := sqlTx.tx.NewKeyReader(store.KeyReaderSpec{
+		Prefix:  prefix,
+		Filters: []store.FilterFn{store.IgnoreExpired, store.IgnoreDeleted},
+	})
+	if errors.Is(err, store.ErrIndexNotFound) {
+		return false, nil
+	}
+	if err != nil {
+		return false, err
+	}
+	defer r.Close()
+
+	_, _, err = r.Read(ctx)
+	if errors.Is(err, store.ErrNoMoreEntries) {
+		return false, nil
+	}
+	if err != nil {
+		return false, err
+	}
+
+	return true, nil
+}
+
 func (sqlTx *SQLTx) Savepoint(name string) {
 	if sqlTx.savepoints == nil {
 		sqlTx.savepoints = make(map[string]*savepointState)
